@@ -2,7 +2,7 @@
    This file holds only the property theorems; proofs are in Proofs_Bloom.v
    (and Proofs_Lzw.v for the compression round trip of C25). *)
 From Coq Require Import Permutation.
-From Goloop Require Import lib.Bytes Model_Bloom Proofs_Bloom Model_Lzw Proofs_Lzw.
+From Goloop Require Import lib.Bytes Model_Bloom Proofs_Bloom.
 
 (* every item (address, indexed value at its position) of every log is reported
    present by the merged bloom, for every hash function, every order and every
@@ -42,7 +42,7 @@ Print Assumptions C26_query_of_items.
 
 Theorem C26_merge_comm_assoc : forall a b c,
   merge a b = merge b a /\ merge (merge a b) c = merge a (merge b c) /\ merge a a = a.
-Proof. intros a b c. exact (conj (merge_comm a b) (conj (merge_assoc a b c) (merge_idem a))). Qed.
+Proof. exact merge_comm_assoc_idem. Qed.
 Print Assumptions C26_merge_comm_assoc.
 
 Theorem C26_merge_any_shape : forall t t',
@@ -52,7 +52,7 @@ Print Assumptions C26_merge_any_shape.
 
 Theorem C26_contain_mono : forall a b q,
   contain a q = true -> contain (merge a b) q = true /\ contain (merge b a) q = true.
-Proof. intros a b q Hc. exact (conj (contain_merge_l a b q Hc) (contain_merge_r b a q Hc)). Qed.
+Proof. exact contain_mono. Qed.
 Print Assumptions C26_contain_mono.
 
 Theorem C26_contain_is_subset : forall b q,
@@ -67,20 +67,9 @@ Theorem C26_compress_transparent : forall compress decompress,
 Proof. exact compress_transparent. Qed.
 Print Assumptions C26_compress_transparent.
 
-(* … in particular the LZW codec of common.Compress / common.Decompress (C25) *)
-Theorem C26_compress_transparent_lzw : forall b,
-  of_compressed Model_Lzw.decompress (compressed_bytes Model_Lzw.compress b) = Some b.
-Proof. exact (compress_transparent _ _ lzw_roundtrip). Qed.
-Print Assumptions C26_compress_transparent_lzw.
-
 (* blooms built from logs fit the 256 bytes of LogBytes *)
 Theorem C26_log_bytes_lossless : forall (H : bytes -> N) receipts,
   bloom_of_bytes (bloom_log_bytes (merge_all (map (receipt_bloom H) receipts)))
   = merge_all (map (receipt_bloom H) receipts).
-Proof.
-  exact (fun H receipts => bloom_log_bytes_roundtrip _
-    (merge_all_lt _ (fun b Hb => match proj1 (in_map_iff _ _ _) Hb with
-                                 | ex_intro _ ls (conj E _) => eq_ind _ (fun x => (x < 2 ^ 2048)%N) (receipt_bloom_lt H ls) _ E
-                                 end))).
-Qed.
+Proof. exact block_log_bytes_lossless. Qed.
 Print Assumptions C26_log_bytes_lossless.
